@@ -11,7 +11,7 @@ open Node
 mutual
 def Deep (lo hi : Nat) : Node → Node → Prop
   | .member o' p' sp', .member o p sp =>
-    sp = sp' ∧ ErAll lo hi o' o ∧ ErAll lo hi p' p ∧ Deep lo hi o' o ∧ Deep lo hi p' p
+    sp = sp' ∧ ErAll lo hi o' o ∧ ErAll lo hi p' p ∧ Deep lo hi o' o ∧ Deep lo hi p' p ∧ (o'.isIdent = true → o' = o)
   | .paren i' sp', n => isSplittableInner i' = true →
       ∃ i, n = .paren i sp' ∧ (i'.span == sp') = false ∧ ErAll lo hi i' i ∧ Deep lo hi i' i
   | .other k' sp' ns' vs', .other k sp ns vs => k = k' ∧ sp = sp' ∧ ns = ns' ∧ DeepL lo hi vs' vs
@@ -39,7 +39,7 @@ theorem Deep.mono {lo hi lo' hi' : Nat} (h1 : lo' ≤ lo) (h2 : hi ≤ hi') :
   | member o' p' sp' ho hp =>
     intro n h
     cases n <;> simp only [Deep] at h ⊢
-    exact ⟨h.1, h.2.1.mono h1 h2, h.2.2.1.mono h1 h2, ho _ h.2.2.2.1, hp _ h.2.2.2.2⟩
+    exact ⟨h.1, h.2.1.mono h1 h2, h.2.2.1.mono h1 h2, ho _ h.2.2.2.1, hp _ h.2.2.2.2.1, h.2.2.2.2.2⟩
   | paren i' sp' hi'' =>
     intro n h
     simp only [Deep] at h ⊢
@@ -87,7 +87,7 @@ theorem Deep.src (lo hi : Nat) : ∀ n : Node, srcOk n = true → Deep lo hi n n
     have hk := srcOk_kids h
     simp only [Deep]
     exact ⟨trivial, ErAll.src (hk o (by simp [kids])) lo hi, ErAll.src (hk p (by simp [kids])) lo hi,
-      ho (hk o (by simp [kids])), hp (hk p (by simp [kids]))⟩
+      ho (hk o (by simp [kids])), hp (hk p (by simp [kids])), by simp⟩
   | paren i sp hi' =>
     intro h
     have hk := srcOk_kids h
